@@ -60,6 +60,33 @@ def scene_for(eng, cname, second=False):
     st.assume(z3.Implies(b.has(g0), z3.And(b.wellformed(g0), b.entry_addr(g0) != d, b.entry_addr(g0) < st.g["Alloc"])))
     st.assume(z3.Implies(z3.And(b.has(g0), b.has(fn), g0 != fn), b.entry_addr(g0) != b.entry_addr(fn)))
     st.ghost["frame_cells"].append(b.entry_addr(g0))
+    # [E-UUID] the file names of collections are names the program holds: a fresh temp name is none of them
+    st.assume(smt.known_name(fn), smt.known_name(g0))
+    # registry members of unknown identity: their attributes are ghost functions of the address; Inv.cover at fn, g0
+    from contracts.buffers import inv_cover, member_facts
+    st.g["NodeFile"] = smt.fresh("NodeFile", z3.ArraySort(IntS, Val))
+    st.g["NodeBuf"] = smt.fresh("NodeBuf", z3.ArraySort(IntS, IntS))
+    st.g["IoFault"] = smt.fresh("IoFault", z3.ArraySort(Val, BoolS))
+    st.assume(z3.Not(z3.Select(st.g["IoFault"], fn)), z3.Not(z3.Select(st.g["IoFault"], g0)))
+    covers = {}
+    for f in (fn, g0):
+        a_c = smt.fresh("cover_obj", IntS)
+        covers[f.get_id()] = (f, smt.VInt(a_c), a_c)       # Inv.registry: members are keyed by their id()
+    st.ghost["covers"] = covers
+    eng.note("[Inv.cover]")
+    eng.note("[A-REPOINT]")
+    for f in (fn, g0):
+        st.assume(inv_cover(eng, st, cname, f))
+        a_c = covers[f.get_id()][2]
+        st.assume(z3.Implies(bs.dict_has(b.reg, smt.VInt(a_c)), member_facts(eng, st, cname, VRef(a_c))))
+    s.covers = covers
+    if b.strategy == "shared":
+        # I4 (exclusivity): the contents container of ANOTHER file's entry is not this object's container
+        cg = b.field(g0, K_CONTENTS)
+        st.assume(z3.Implies(z3.And(b.has(g0), g0 != fn), z3.And(Val.addr(cg) != d, smt.is_VRef(cg), Val.addr(cg) > 1000,
+                                                                 Val.addr(cg) < st.g["Alloc"], Val.addr(cg) != b.ba,
+                                                                 Val.addr(cg) != b.ra)))
+        st.ghost["other_tree_containers"] = [(z3.And(b.has(g0), g0 != fn), Val.addr(cg))]
     if b.strategy == "shared":
         # I4 (when it holds): the entry's contents container — not necessarily this object's own
         c = b.field(fn, K_CONTENTS)
@@ -75,6 +102,8 @@ def run_task(eng, prover, task, out):
     eng.prover = prover
     if what == "flush":
         check_flush(eng, prover, cname, out)
+        check_flush_contract(eng, prover, cname, out)
+        check_flush_buffer_def(eng, prover, cname, out)
     elif what == "init":
         check_initialize(eng, prover, cname, out)
     elif what == "save":
@@ -124,6 +153,7 @@ def check_flush(eng, prover, cname, out):
         prover.goal(f"C15/{base}/accounting:size-tracks-this-file", x,
                     bq.size - bp.size == bq.contrib(fn) - bp.contrib(fn), info=ctx)
         prover.goal(f"C15/{base}/frame:other-entries-untouched", x, others_untouched(eng, pre, x, cname, fn, g0), info=ctx)
+        cover_exit(eng, prover, base, x, cname, fn, g0, ctx)
         # C08 / C17: a flush performs no file primitive of its own (only through _save_to_resource's contract)
         prover.structural(f"C08/{base}/no-own-file-primitive", not any(e[0] == "fs" for e in x.events), x, ctx)
         prover.goal(f"C10/{base}/balance:locks", x, x.g["Depth"] == pre.g["Depth"], info=ctx)
@@ -175,8 +205,75 @@ def check_flush(eng, prover, cname, out):
     out["functions"][fi.qualname] = fi.sha()
 
 
+def check_flush_contract(eng, prover, cname, out):
+    """The body of the class's _flush against contracts/buffers.FlushContract (the contract that stands for
+    `collection._flush(force)` inside _flush_buffer, where the collection is a registry member)."""
+    from props.defs import verify_contract
+    s, st, fn = scene_for(eng, cname)
+    fi = eng.P.lookup_method(s.cls, "_flush")
+    st.ghost["skolem_files"] = [s.other_file]
+    force = smt.fresh("force", BoolS)
+    n = verify_contract(eng, prover, "C05", f"{cname}._flush@{fi.qualname}/root", fi, eng.flush_contract, st,
+                        [s.self_, Bv(force)])
+    out["paths"] += n
+    out["functions"][fi.qualname] = fi.sha()
+
+
+def check_flush_buffer_def(eng, prover, cname, out):
+    """The body of FileBufferedCollection._flush_buffer (for cls = this class, symbolic force / retain_in_force)
+    against contracts/buffers.FlushBufferContract, from a state satisfying Inv.cover / Inv.registry at a Skolem file.
+    The collections popped from the registry are objects of unknown identity: their _flush is the FlushContract
+    proved against the class's real _flush (check_flush_contract)."""
+    from props.defs import verify_contract
+    from contracts.buffers import cover_in
+    s, st, fn = scene_for(eng, cname)
+    fi = eng.P.lookup_method(eng.P.classes["FileBufferedCollection"], "_flush_buffer")
+    b = Buf(eng, st, cname)
+    f0 = s.other_file
+    st.ghost["skolem_files"] = [f0]
+    (_, k_c, a_c) = s.covers[f0.get_id()]
+    # Inv.cover at f0: a file that has an entry has a registered collection bound to it (here: the ghost witness;
+    # the known object of the scene stays out of the registry)
+    st.assume(z3.Implies(b.has(f0), z3.And(cover_in(b.reg, k_c, a_c), z3.Select(st.g["NodeFile"], a_c) == f0)))
+    force = smt.fresh("force", BoolS)
+    retain = smt.fresh("retain_in_force", BoolS)
+    if b.strategy == "shared":
+        st.assume(z3.Implies(force, retain))      # requires (the only caller passes retain_in_force=True)
+    from contracts.buffers import stat_of
+
+    def E(pre):
+        bp = Buf(eng, pre, cname)
+        return bp.has(f0), bp.changed(f0), z3.Not(pyeq(bp.field(f0, K_METADATA), stat_of(pre, f0)))
+    nf = lambda x: z3.Not(z3.Select(x.g["IoFault"], f0))
+    reach = [
+        ("forced-flush-writes-a-changed-copy", lambda pre, x, r: z3.And(force, E(pre)[0], E(pre)[1], z3.Not(E(pre)[2]), nf(x),
+                                                                       z3.BoolVal(not isinstance(r, Raise)))),
+        ("conflict-is-reported", lambda pre, x, r: z3.And(force, E(pre)[0], E(pre)[1], E(pre)[2], nf(x),
+                                                         z3.BoolVal(isinstance(r, Raise)))),
+        ("unforced-flush-leaves-a-buffered-collection", lambda pre, x, r: z3.And(z3.Not(force), E(pre)[0],
+                                                                                Buf(eng, x, cname).has(f0), nf(x))),
+        ("unchanged-copy", lambda pre, x, r: z3.And(force, E(pre)[0], z3.Not(E(pre)[1]), nf(x))),
+    ]
+    n = verify_contract(eng, prover, "C05", f"{cname}._flush_buffer@{fi.qualname}", fi,
+                        eng.contracts["FileBufferedCollection._flush_buffer"], st, [ClassV(s.cls), Bv(force), Bv(retain)],
+                        reach=reach)
+    out["paths"] += n
+    out["functions"][fi.qualname] = fi.sha()
+
+
+def cover_exit(eng, prover, base, x, cname, fn, g0, ctx):
+    """Inv.cover re-established on exit (not claimed after an injected I/O fault)."""
+    from contracts.buffers import inv_cover
+    if any(e[0] == "io-fault" for e in x.events):
+        return
+    for (nm, f) in (("this-file", fn), ("other-file", g0)):
+        nofault = z3.Not(z3.Select(x.g["IoFault"], f))       # (a fault recorded at f by a buffer-wide flush)
+        prover.goal(f"C06/{base}/Inv.cover:{nm}", x, z3.Implies(nofault, inv_cover(eng, x, cname, f)), info=ctx)
+
+
 def common_exit_checks(eng, prover, base, pre, x, res, s, cname, fn, g0, ctx, forced_possible=True):
     bp, bq = Buf(eng, pre, cname), Buf(eng, x, cname)
+    cover_exit(eng, prover, base, x, cname, fn, g0, ctx)
     flushed = any(e[0] in ("flush-buffer", "flush-buffer-error") for e in x.events)
     if not flushed:
         prover.goal(f"C15/{base}/accounting:size-tracks-this-file", x,
@@ -341,6 +438,7 @@ def check_object_context_exit(eng, prover, cname, out):
         bq = Buf(eng, x, cname)
         faulty = any(e[0] == "io-fault" for e in x.events)
         prover.goal(f"C05/{base}/count-decremented", x, as_int(x.rec(ctx_obj).fields["_count"]) == c0 - 1, info=ctx)
+        cover_exit(eng, prover, base, x, cname, fn, s.other_file, ctx)
         prover.goal(f"C05/{base}/inner-exit-writes-nothing", x,
                     z3.Implies(z3.Not(outermost), z3.And(x.g["FS"] == pre.g["FS"], x.g["Res"] == pre.g["Res"])), info=ctx)
         if not isinstance(res, Raise):
@@ -408,6 +506,10 @@ def check_backend_context(eng, prover, cname, out):
                 ctx = {"path": k, "exit": "raise" if isinstance(r3, Raise) else "normal"}
                 bq = Buf(eng, c, cname)
                 prover.goal(f"C15/{base}/exit:capacity-restored", c, bq.cap == cap0, info=ctx)
+                cover_exit(eng, prover, base, c, cname, fn, s.other_file, ctx)
+                for e in c.events:
+                    if e[0] == "requires":
+                        prover.goal(f"C11/{base}/callee-requires:{e[2]}", c, e[3], info=ctx)
                 prover.goal(f"C15/{base}/exit:context-stack-restored", c, c.sel("Cell", stack_addr) == stack0, info=ctx)
                 prover.goal(f"C15/{base}/exit:count-restored", c, as_int(c.rec(ctx_obj).fields["_count"]) == cnt0, info=ctx)
                 flushed = any(e[0] in ("flush-buffer", "flush-buffer-error") and not z3.is_true(z3.simplify(e[2]))
@@ -436,5 +538,9 @@ def check_set_capacity(eng, prover, cname, out):
         if not isinstance(res, Raise):
             prover.goal(f"C15/{base}/size-within-capacity-on-return", x, bq.size <= bq.cap, info={"path": k})
         prover.goal(f"C10/{base}/balance:locks", x, x.g["Depth"] == pre.g["Depth"], info={"path": k})
+        cover_exit(eng, prover, base, x, cname, fn, s.other_file, {"path": k})
+        for e in x.events:
+            if e[0] == "requires":
+                prover.goal(f"C11/{base}/callee-requires:{e[2]}", x, e[3], info={"path": k})
     out["paths"] += k
     out["functions"][fi.qualname] = fi.sha()
